@@ -475,8 +475,21 @@ def check(ctx):
             o7.fail(P, 'Environment.run', 'self._terminated = False', 'the termination flag is not lowered before the loop', file=Env.mod.path, line=fn.lineno)
         else:
             o7.witness('lowered')
+        def _restores(n):
+            # `self.flag = saved` after the loop, where `saved = self.flag` is the only definition of the local: run() puts back what it
+            # found (the repair of F22 for nested runs); no step of this activation can follow it
+            v = n.ast.value
+            if not isinstance(v, ast.Name):
+                return False
+            defs = [x for x in ast.walk(fn) if isinstance(x, (ast.Assign, ast.AugAssign, ast.AnnAssign, ast.For, ast.NamedExpr, ast.withitem))
+                    for t in ast.walk(x.targets[0] if isinstance(x, ast.Assign) else getattr(x, 'target', None) or getattr(x, 'optional_vars', None) or ast.Pass())
+                    if isinstance(t, ast.Name) and t.id == v.id and isinstance(t.ctx, ast.Store)]
+            if len(defs) != 1 or not isinstance(defs[0], ast.Assign) or len(defs[0].targets) != 1 or not is_self_attr(defs[0].value, flag or '_terminated'):
+                return False
+            after = g.reach([n.id], follow=lambda l: l != 'exc')
+            return not any(sn.id in after for sn in steps)
         for n in lows:
-            if n not in good:
+            if n not in good and not _restores(n):
                 o7.fail(P, 'Environment.run', None, 'run() sets the termination flag itself', node=n)
     o7.count()
     if len(steps) != 1:
@@ -608,6 +621,29 @@ def check(ctx):
         else:
             o14.witness('retired')
             o14.sample({'step_site': sn.line, 'retired_at': sorted(gx.nodes[k].line for k in retire)})
+
+    # ---- C01.15 the end-of-run signal belongs to one activation of run() ------------------
+    o15 = Ob('C01.15', 'K1+K2', 'a run started from inside an event action (the quantifier of C01 names it) must not end the run that is executing it: the signal '
+                                'that stops the stepping loop is private to one activation of run() -- a local or closure, a field that run() saves and puts back, '
+                                'or run() refuses to be entered while a run is in progress.  A boolean field of the environment that every activation lowers on '
+                                'entry and the TERMINATE action raises is shared by the nested runs: the inner TERMINATE stops the outer loop too, at the inner '
+                                'end, and the outer TERMINATE event stays behind')
+    obs.append(o15)
+    o15.count()
+    if len(term) == 1 and flag:
+        run_stores = [s_ for s_ in inv.attr_stores(P, flag) if s_.cls is Env and s_.func is not None and s_.func.name == 'run']
+        const_only = bool(run_stores) and all(isinstance(getattr(s_.stmt, 'value', None), ast.Constant) for s_ in run_stores)
+        loop_reads = any(n.kind == 'cond' and dv_canon(n.ast, n.frame) in ('self.' + flag, 'notself.' + flag) for n in g.nodes.values())
+        refuses = any(isinstance(x, ast.Raise) for x in ast.walk(fn))          # a re-entry guard (any raise in run(): be generous, never alarm on one)
+        if const_only and loop_reads and not refuses:
+            st0 = run_stores[0]
+            o15.fail(P, 'Environment.run', 'shared-termination-flag',
+                     f'run() lowers the field self.{flag} on entry and its loop stops when the TERMINATE action raises it: a run() called from inside an event '
+                     'action shares the field with the run that is executing that action and ends it early, leaving the outer TERMINATE event live',
+                     file=Env.mod.path, line=st0.line)
+        else:
+            o15.witness('private signal, saved field or re-entry refusal')
+    o15.sample({'flag': flag, 'rule': 'stores to the flag inside run() are all constants, the loop tests the field, run() never refuses entry => shared between nested activations'})
 
     # ---- C01.9 nobody withholds the end-of-run event ---------------------------------
     o9 = Ob('C01.9', 'K1', 'the TERMINATE event (scheduled under the shared id -1) is never paused or cancelled: every pause / unpause / cancel call in the '
